@@ -147,13 +147,13 @@ Proof.
 Qed.
 
 (** ---------- the entries from the metadata words, the index and the data slices ---------- *)
-Lemma entries_of_layout : forall (t : list sentry) (H P zs : list N) (from : N) (file : list N),
+Lemma entries_of_layout : forall (t : list sentry) (H P zs J : list N) (from : N) (file : list N),
   Forall entry_ok t ->
-  file = H ++ P ++ data_part t ->
+  file = H ++ P ++ data_part t ++ J ->
   N.of_nat (length (H ++ P)) = from ->
   entries_of file (map raw_meta t) (from :: cumul from (map (fun e => moc_data (e_moc smoc e)) t) ++ zs) = t.
 Proof.
-  induction t as [|e t IH]; intros H P zs from file Hok Hfile Hfrom; [reflexivity|].
+  induction t as [|e t IH]; intros H P zs J from file Hok Hfile Hfrom; [reflexivity|].
   pose proof (Forall_inv Hok) as He. pose proof (Forall_inv_tail Hok) as Ht.
   cbn [map cumul app entries_of].
   set (de := moc_data (e_moc smoc e)) in *.
@@ -161,15 +161,15 @@ Proof.
   destruct (raw_meta_fields e He) as [_ [_ [F1 [F2 F3]]]].
   rewrite F1, F2, F3.
   assert (Hto : N.to_nat (to - from) = length de) by (unfold to; lia).
-  assert (Hsk : skipn (N.to_nat from) file = de ++ data_part t).
+  assert (Hsk : skipn (N.to_nat from) file = de ++ data_part t ++ J).
   { rewrite Hfile. cbn [data_part flat_map]. fold de. fold (data_part t).
-    rewrite app_assoc. apply skipn_app_exact. lia. }
+    rewrite <- app_assoc. rewrite app_assoc. apply skipn_app_exact. lia. }
   rewrite Hto, Hsk. rewrite (firstn_app_exact de _ (length de) eq_refl).
   unfold de at 1 2. rewrite (read_moc_data e He).
   f_equal.
   - destruct e as [st id [d l]]. reflexivity.
-  - apply (IH H (P ++ de) zs to file Ht).
-    + rewrite Hfile. cbn [data_part flat_map]. fold de. fold (data_part t). rewrite <- app_assoc. reflexivity.
+  - apply (IH H (P ++ de) zs J to file Ht).
+    + rewrite Hfile. cbn [data_part flat_map]. fold de. fold (data_part t). rewrite <- !app_assoc. reflexivity.
     + unfold to. rewrite <- Hfrom. rewrite !app_length. lia.
 Qed.
 
@@ -193,41 +193,42 @@ Qed.
 Lemma cumul_length ds : forall from, length (cumul from ds) = length ds.
 Proof. induction ds as [|d ds IH]; intros from; cbn [cumul length]; [reflexivity|]. rewrite IH. reflexivity. Qed.
 
-Theorem decode_file_bytes n128 (ents : list sentry) :
+(** a file whose unused index slots hold anything and whose data part is followed by anything
+    (what an interrupted append leaves behind) decodes to the same state *)
+Definition layout_gen (n128 : N) (ents : list sentry) (tailw junk : list N) : list N :=
+  le_bytes 8 n128 ++ meta_part n128 ents ++ flat_map (le_bytes 8) (index_words n128 ents ++ tailw) ++ data_part ents ++ junk.
+
+Theorem decode_layout_gen n128 (ents : list sentry) tailw junk :
   1 <= n128 -> (length ents <= cap_of n128)%nat -> Forall entry_ok ents ->
   hdr_size n128 + N.of_nat (length (data_part ents)) < 2 ^ 64 ->
-  decode_file (file_bytes n128 ents) = (n128, ents).
+  length tailw = (cap_of n128 - length ents)%nat -> Forall (fun x => x < 2 ^ 64) tailw ->
+  decode_file (layout_gen n128 ents tailw junk) = (n128, ents).
 Proof.
-  intros Hn Hlen Hok Hsz.
+  intros Hn Hlen Hok Hsz Htl Htw.
   assert (Hn64 : n128 < 256 ^ N.of_nat 8) by (change (256 ^ N.of_nat 8) with (2 ^ 64); unfold hdr_size in Hsz; lia).
   set (cap := cap_of n128) in *. set (n := length ents) in *.
   set (raws := map raw_meta ents).
   set (datas := map (fun e => moc_data (e_moc smoc e)) ents).
-  (* the three header parts as words *)
   assert (EM : meta_part n128 ents = flat_map (le_bytes 8) (raws ++ repeat 0 (cap - n))).
   { unfold meta_part. fold cap n. rewrite flat_map_app, <- zeros_words. f_equal. unfold raws. clear. induction ents as [|e t IH]; [reflexivity|]. cbn [flat_map map]. rewrite IH. reflexivity. }
-  assert (EI : index_part n128 ents = flat_map (le_bytes 8) (index_words n128 ents ++ repeat 0 (cap - n))).
-  { unfold index_part. fold cap n. rewrite flat_map_app, <- zeros_words. reflexivity. }
   assert (Rok : Forall (fun x => x < 2 ^ 64) (raws ++ repeat 0 (cap - n))).
   { apply Forall_app. split.
     - unfold raws. apply Forall_forall. intros x Hx. apply in_map_iff in Hx. destruct Hx as [e [<- He]].
       rewrite Forall_forall in Hok. apply (raw_meta_fields e (Hok e He)).
     - apply Forall_forall. intros x Hx. apply repeat_spec in Hx. subst x. reflexivity. }
-  assert (Iok : Forall (fun x => x < 2 ^ 64) (index_words n128 ents ++ repeat 0 (cap - n))).
-  { apply Forall_app. split.
-    - unfold index_words. constructor; [lia|]. fold datas.
-      assert (B : Forall (fun x => x <= hdr_size n128 + N.of_nat (length (data_part ents))) (cumul (hdr_size n128) datas)).
-      { apply cumul_last_bound. unfold datas, data_part. rewrite flat_map_concat_map. lia. }
-      eapply Forall_impl; [|exact B]. intros x Hx. cbn beta in Hx. lia.
-    - apply Forall_forall. intros x Hx. apply repeat_spec in Hx. subst x. reflexivity. }
+  assert (Iok : Forall (fun x => x < 2 ^ 64) (index_words n128 ents ++ tailw)).
+  { apply Forall_app. split; [|exact Htw].
+    unfold index_words. constructor; [lia|]. fold datas.
+    assert (B : Forall (fun x => x <= hdr_size n128 + N.of_nat (length (data_part ents))) (cumul (hdr_size n128) datas)).
+    { apply cumul_last_bound. unfold datas, data_part. rewrite flat_map_concat_map. lia. }
+    eapply Forall_impl; [|exact B]. intros x Hx. cbn beta in Hx. lia. }
   assert (LR : length (raws ++ repeat 0 (cap - n)) = cap) by (rewrite app_length, repeat_length; unfold raws; rewrite map_length; unfold n, cap, sentry in *; lia).
-  assert (LI : length (index_words n128 ents ++ repeat 0 (cap - n)) = S cap).
-  { rewrite app_length, repeat_length. unfold index_words. cbn [length]. rewrite cumul_length. unfold datas. rewrite map_length. unfold n, cap, sentry in *. lia. }
-  unfold decode_file, file_bytes.
+  assert (LI : length (index_words n128 ents ++ tailw) = S cap).
+  { rewrite app_length, Htl. unfold index_words. cbn [length]. rewrite cumul_length. unfold datas. rewrite map_length. unfold n, cap, sentry in *. lia. }
+  unfold decode_file, layout_gen.
   assert (LA : length (le_bytes 8 n128) = 8%nat) by apply le_bytes_length.
   rewrite (firstn_app_exact _ _ 8 LA). rewrite (le_roundtrip 8 n128 Hn64). fold cap.
   rewrite (skipn_app_exact _ _ 8 LA).
-  (* metadata words *)
   rewrite EM.
   set (R := raws ++ repeat 0 (cap - n)) in *.
   replace cap with (length R + 0)%nat at 1 by lia.
@@ -237,28 +238,190 @@ Proof.
   rewrite until_void_zeros.
   2:{ unfold raws. apply Forall_forall. intros x Hx. apply in_map_iff in Hx. destruct Hx as [e [<- He]].
       rewrite Forall_forall in Hok. apply (raw_meta_fields e (Hok e He)). }
-  (* index words *)
   assert (LM : length (flat_map (le_bytes 8) R) = (8 * cap)%nat).
   { rewrite <- LR. generalize R. intros l. induction l as [|x l IHl]; [reflexivity|].
     cbn [flat_map length]. rewrite app_length, le_bytes_length, IHl. lia. }
-  replace (le_bytes 8 n128 ++ flat_map (le_bytes 8) R ++ index_part n128 ents ++ data_part ents)
-    with ((le_bytes 8 n128 ++ flat_map (le_bytes 8) R) ++ index_part n128 ents ++ data_part ents)
+  set (IW := index_words n128 ents ++ tailw) in *.
+  replace (le_bytes 8 n128 ++ flat_map (le_bytes 8) R ++ flat_map (le_bytes 8) IW ++ data_part ents ++ junk)
+    with ((le_bytes 8 n128 ++ flat_map (le_bytes 8) R) ++ flat_map (le_bytes 8) IW ++ data_part ents ++ junk)
     by (rewrite <- app_assoc; reflexivity).
   rewrite (skipn_app_exact _ _ (8 + 8 * cap)) by (rewrite app_length; lia).
-  rewrite EI.
-  set (IW := index_words n128 ents ++ repeat 0 (cap - n)) in *.
   replace (S cap) with (length IW + 0)%nat by lia.
   rewrite (words_app _ 0 _ Iok).
   match goal with |- context [words 0 ?b] => change (words 0 b) with (@nil N) end. rewrite app_nil_r.
-  (* the entries *)
   f_equal.
-  change IW with (hdr_size n128 :: cumul (hdr_size n128) datas ++ repeat 0 (cap - n)) at 1.
-  apply (entries_of_layout ents ((le_bytes 8 n128 ++ flat_map (le_bytes 8) R) ++ flat_map (le_bytes 8) IW) [] _ (hdr_size n128)).
+  change IW with (hdr_size n128 :: cumul (hdr_size n128) datas ++ tailw) at 1.
+  apply (entries_of_layout ents ((le_bytes 8 n128 ++ flat_map (le_bytes 8) R) ++ flat_map (le_bytes 8) IW) [] _ junk (hdr_size n128)).
   - exact Hok.
-  - rewrite app_nil_l. unfold index_words. fold datas. rewrite <- !app_assoc. reflexivity.
+  - rewrite app_nil_l. rewrite <- !app_assoc. reflexivity.
   - rewrite app_nil_r, !app_length, LA, LM.
     assert (LI8 : length (flat_map (le_bytes 8) IW) = (8 * S cap)%nat).
     { rewrite <- LI. generalize IW. intros l. induction l as [|x l IHl]; [reflexivity|].
       cbn [flat_map length]. rewrite app_length, le_bytes_length, IHl. lia. }
     rewrite LI8. unfold hdr_size, cap, cap_of. lia.
+Qed.
+
+Lemma file_bytes_gen n128 ents : file_bytes n128 ents = layout_gen n128 ents (repeat 0 (cap_of n128 - length ents)) [].
+Proof.
+  unfold file_bytes, layout_gen, index_part. rewrite flat_map_app, <- zeros_words, app_nil_r. reflexivity.
+Qed.
+
+Theorem decode_file_bytes n128 (ents : list sentry) :
+  1 <= n128 -> (length ents <= cap_of n128)%nat -> Forall entry_ok ents ->
+  hdr_size n128 + N.of_nat (length (data_part ents)) < 2 ^ 64 ->
+  decode_file (file_bytes n128 ents) = (n128, ents).
+Proof.
+  intros Hn Hlen Hok Hsz. rewrite file_bytes_gen.
+  apply decode_layout_gen; try assumption.
+  - apply repeat_length.
+  - apply Forall_forall. intros x Hx. apply repeat_spec in Hx. subst x. reflexivity.
+Qed.
+
+(** ---------- the writes of an append: every prefix decodes to the old or to the new state ---------- *)
+Lemma write_at_prefix P p k b X : length P = p -> write_at (p + k) b (P ++ X) = P ++ write_at k b X.
+Proof.
+  intros <-. unfold write_at.
+  rewrite firstn_app. rewrite firstn_all2 by lia.
+  replace (length P + k - length P)%nat with k by lia.
+  rewrite <- app_assoc. f_equal. f_equal. f_equal.
+  rewrite skipn_app. rewrite skipn_all2 by lia. cbn [app].
+  f_equal. lia.
+Qed.
+
+Lemma write_at_end A b J : write_at (length A) b (A ++ J) = A ++ b ++ skipn (length b) J.
+Proof.
+  replace (length A) with (length A + 0)%nat at 1 by lia. rewrite write_at_prefix by reflexivity.
+  unfold write_at. cbn [firstn app Nat.add]. reflexivity.
+Qed.
+
+Lemma flat_le8_length ws : length (flat_map (le_bytes 8) ws) = (8 * length ws)%nat.
+Proof. induction ws as [|x t IH]; [reflexivity|]. cbn [flat_map length]. rewrite app_length, le_bytes_length, IH. lia. Qed.
+
+Lemma write_at_word ws1 y ws2 x rest :
+  write_at (8 * length ws1) (le_bytes 8 x) (flat_map (le_bytes 8) (ws1 ++ y :: ws2) ++ rest)
+  = flat_map (le_bytes 8) (ws1 ++ x :: ws2) ++ rest.
+Proof.
+  rewrite !flat_map_app. cbn [flat_map]. rewrite <- !app_assoc.
+  rewrite <- (flat_le8_length ws1).
+  replace (length (flat_map (le_bytes 8) ws1)) with (length (flat_map (le_bytes 8) ws1) + 0)%nat at 1 by lia.
+  rewrite write_at_prefix by reflexivity. f_equal.
+Qed.
+
+Lemma append_steps_files n128 (ents : list sentry) (e : sentry) junk :
+  (length ents < cap_of n128)%nat ->
+  let cap := cap_of n128 in let n := length ents in
+  let de := moc_data (e_moc smoc e) in
+  let j1 := de ++ skipn (length de) junk in
+  let x := N.of_nat (N.to_nat (hdr_size n128) + length (data_part ents) + length de) in
+  append_steps n128 ents e (layout_gen n128 ents (repeat 0 (cap - n)) junk)
+  = [layout_gen n128 ents (repeat 0 (cap - n)) j1;
+     layout_gen n128 ents (x :: repeat 0 (cap - S n)) j1;
+     layout_gen n128 (ents ++ [e]) (repeat 0 (cap - S n)) (skipn (length de) junk)].
+Proof.
+  intros Hlen cap n de j1 x.
+  assert (Dapp : data_part (ents ++ [e]) = data_part ents ++ de).
+  { unfold data_part. rewrite flat_map_app. cbn [flat_map]. rewrite app_nil_r. reflexivity. }
+  set (from := (N.to_nat (hdr_size n128) + length (data_part ents))%nat).
+  set (raws := map raw_meta ents).
+  set (iw := index_words n128 ents).
+  (* the header parts with one spare slot made explicit *)
+  assert (Ez : repeat 0 (cap - n) = 0 :: repeat 0 (cap - S n)).
+  { replace (cap - n)%nat with (S (cap - S n)) by (unfold n, cap, sentry in *; lia). reflexivity. }
+  assert (EMp : meta_part n128 ents = flat_map (le_bytes 8) (raws ++ 0 :: repeat 0 (cap - S n))).
+  { unfold meta_part. change (cap_of n128) with cap. change (@length (entry smoc) ents) with n.
+    change (@length sentry ents) with n.
+    rewrite (zeros_words (cap - n)), Ez, flat_map_app. f_equal.
+    unfold raws. clear. induction ents as [|x t IH]; [reflexivity|]. cbn [flat_map map]. rewrite IH. reflexivity. }
+  assert (Liw : length iw = S n).
+  { unfold iw, index_words. cbn [length]. rewrite cumul_length, map_length. reflexivity. }
+  assert (Lraws : length raws = n) by (unfold raws; rewrite map_length; reflexivity).
+  assert (LM : length (meta_part n128 ents) = (8 * cap)%nat).
+  { rewrite EMp, flat_le8_length, app_length. cbn [length]. rewrite repeat_length, Lraws. unfold n, cap, sentry in *. lia. }
+  set (A := le_bytes 8 n128).
+  assert (LA : length A = 8%nat) by apply le_bytes_length.
+  set (f0 := layout_gen n128 ents (repeat 0 (cap - n)) junk).
+  (* the three files *)
+  assert (F0 : f0 = (A ++ meta_part n128 ents ++ flat_map (le_bytes 8) (iw ++ repeat 0 (cap - n)) ++ data_part ents) ++ junk).
+  { unfold f0, layout_gen. fold A iw. rewrite <- ?app_assoc. reflexivity. }
+  assert (Lhead : length (A ++ meta_part n128 ents ++ flat_map (le_bytes 8) (iw ++ repeat 0 (cap - n)) ++ data_part ents) = from).
+  { rewrite !app_length, LA, LM, flat_le8_length, app_length, repeat_length, Liw. unfold from, hdr_size, cap, cap_of, n, sentry in *. lia. }
+  assert (F1 : write_at from de f0 = layout_gen n128 ents (repeat 0 (cap - n)) j1).
+  { rewrite F0. rewrite <- Lhead. rewrite write_at_end. unfold layout_gen, j1. fold A iw. rewrite <- !app_assoc. reflexivity. }
+  change x with (N.of_nat (from + length de)) in *.
+  assert (F2 : write_at (8 + 8 * cap + 8 * S n) (le_bytes 8 x) (layout_gen n128 ents (repeat 0 (cap - n)) j1)
+               = layout_gen n128 ents (x :: repeat 0 (cap - S n)) j1).
+  { unfold layout_gen. fold A iw. rewrite Ez.
+    replace (A ++ meta_part n128 ents ++ flat_map (le_bytes 8) (iw ++ 0 :: repeat 0 (cap - S n)) ++ data_part ents ++ j1)
+      with ((A ++ meta_part n128 ents) ++ flat_map (le_bytes 8) (iw ++ 0 :: repeat 0 (cap - S n)) ++ data_part ents ++ j1) by (rewrite <- app_assoc; reflexivity).
+    rewrite (write_at_prefix (A ++ meta_part n128 ents) (8 + 8 * cap) (8 * S n)) by (rewrite app_length, LA, LM; reflexivity).
+    replace (8 * S n)%nat with (8 * length iw)%nat by (rewrite Liw; reflexivity). rewrite write_at_word. rewrite <- app_assoc. reflexivity. }
+  assert (F3 : write_at (8 + 8 * n) (le_bytes 8 (raw_meta e)) (layout_gen n128 ents (x :: repeat 0 (cap - S n)) j1)
+               = layout_gen n128 (ents ++ [e]) (repeat 0 (cap - S n)) (skipn (length de) junk)).
+  { unfold layout_gen. fold A iw. rewrite EMp.
+    rewrite (write_at_prefix A 8 (8 * n)) by exact LA.
+    replace (8 * n)%nat with (8 * length raws)%nat by (rewrite Lraws; reflexivity). rewrite write_at_word.
+    (* the new state's parts *)
+    assert (EM' : meta_part n128 (ents ++ [e]) = flat_map (le_bytes 8) (raws ++ raw_meta e :: repeat 0 (cap - S n))).
+    { unfold meta_part. change (cap_of n128) with cap. rewrite app_length. cbn [length]. change (@length (entry smoc) ents) with n. change (@length sentry ents) with n. replace (cap - (n + 1))%nat with (cap - S n)%nat by lia.
+      rewrite flat_map_app. cbn [flat_map]. rewrite <- app_assoc. rewrite (zeros_words (cap - S n)).
+      rewrite !flat_map_app. cbn [flat_map]. rewrite app_nil_r. f_equal.
+      unfold raws. clear. induction ents as [|y t IH]; [reflexivity|]. cbn [flat_map map]. rewrite IH. reflexivity. }
+    assert (EI' : index_words n128 (ents ++ [e]) = iw ++ [x]).
+    { unfold iw, index_words. rewrite map_app. cbn [map].
+      assert (C : forall ds fr d, cumul fr (ds ++ [d]) = cumul fr ds ++ [fr + N.of_nat (length (List.concat ds)) + N.of_nat (length d)]).
+      { induction ds as [|d0 ds IHd]; intros fr d; cbn [cumul app List.concat length]; [f_equal; lia|].
+        rewrite IHd. rewrite app_length. f_equal. f_equal. f_equal. lia. }
+      rewrite C. cbn [app]. f_equal. f_equal. f_equal.
+      unfold x, from, data_part, de. rewrite flat_map_concat_map. unfold sentry in *. lia. }
+    rewrite EM', EI', Dapp. rewrite <- ?app_assoc. cbn [app]. unfold j1. rewrite <- ?app_assoc. reflexivity. }
+  unfold append_steps. fold cap n de from f0. cbv zeta.
+  rewrite F1. change (N.of_nat (from + length de)) with x. rewrite F2. rewrite F3. reflexivity.
+Qed.
+
+Theorem append_steps_decode n128 (ents : list sentry) (e : sentry) junk :
+  1 <= n128 -> (length ents < cap_of n128)%nat -> Forall entry_ok ents -> entry_ok e ->
+  hdr_size n128 + N.of_nat (length (data_part (ents ++ [e]))) < 2 ^ 64 ->
+  map decode_file (append_steps n128 ents e (layout_gen n128 ents (repeat 0 (cap_of n128 - length ents)) junk))
+  = [(n128, ents); (n128, ents); (n128, ents ++ [e])].
+Proof.
+  intros Hn Hlen Hok He Hsz.
+  rewrite (append_steps_files n128 ents e junk Hlen). cbv zeta.
+  set (cap := cap_of n128) in *. set (n := length ents) in *.
+  set (de := moc_data (e_moc smoc e)).
+  set (j1 := de ++ skipn (length de) junk).
+  set (x := N.of_nat (N.to_nat (hdr_size n128) + length (data_part ents) + length de)).
+  assert (Dapp : data_part (ents ++ [e]) = data_part ents ++ de).
+  { unfold data_part. rewrite flat_map_app. cbn [flat_map]. rewrite app_nil_r. reflexivity. }
+  assert (Hsz0 : hdr_size n128 + N.of_nat (length (data_part ents)) < 2 ^ 64) by (rewrite Dapp, app_length in Hsz; lia).
+  cbn [map].
+  (* decode the three *)
+  assert (Z0 : Forall (fun y => y < 2 ^ 64) (repeat 0 (cap - n))).
+  { apply Forall_forall. intros y Hy. apply repeat_spec in Hy. subst y. reflexivity. }
+  assert (Z1 : Forall (fun y => y < 2 ^ 64) (repeat 0 (cap - S n))).
+  { apply Forall_forall. intros y Hy. apply repeat_spec in Hy. subst y. reflexivity. }
+  assert (Hx : x < 2 ^ 64).
+  { unfold x. rewrite Dapp, app_length in Hsz. fold de in Hsz. lia. }
+  assert (Hle : (length ents <= cap_of n128)%nat) by (unfold n, cap, sentry in *; lia).
+  assert (D1 : decode_file (layout_gen n128 ents (repeat 0 (cap - n)) j1) = (n128, ents)).
+  { apply decode_layout_gen; try assumption. apply repeat_length. }
+  assert (D2 : decode_file (layout_gen n128 ents (x :: repeat 0 (cap - S n)) j1) = (n128, ents)).
+  { apply decode_layout_gen; try assumption.
+    - cbn [length]. rewrite repeat_length. unfold n, cap, sentry in *. lia.
+    - constructor; [exact Hx|exact Z1]. }
+  assert (D3 : decode_file (layout_gen n128 (ents ++ [e]) (repeat 0 (cap - S n)) (skipn (length de) junk)) = (n128, ents ++ [e])).
+  { apply decode_layout_gen; try assumption.
+    - rewrite app_length. cbn [length]. unfold n, cap, sentry in *. lia.
+    - apply Forall_app. split; [exact Hok|constructor; [exact He|constructor]].
+    - rewrite repeat_length, app_length. cbn [length]. unfold n, cap, sentry in *. lia. }
+  rewrite D1, D2, D3. reflexivity.
+Qed.
+
+(** on a file without leftovers the third write gives exactly the layout of the new state *)
+Corollary append_final_layout n128 (ents : list sentry) (e : sentry) : (length ents < cap_of n128)%nat ->
+  nth 2 (append_steps n128 ents e (file_bytes n128 ents)) [] = file_bytes n128 (ents ++ [e]).
+Proof.
+  intros Hlen. rewrite file_bytes_gen. rewrite (append_steps_files n128 ents e [] Hlen). cbv zeta. cbn [nth].
+  rewrite file_bytes_gen. rewrite app_length. cbn [length].
+  replace (cap_of n128 - (length ents + 1))%nat with (cap_of n128 - S (length ents))%nat by lia.
+  destruct (length (moc_data (e_moc smoc e))); reflexivity.
 Qed.
